@@ -42,10 +42,25 @@ def facts(ex, s):
     return evs, t_open, disc
 
 
-def reading_always(s):
+def reading_always(s, T=None):
+    """The client sees every PING (almost) when it is emitted: WebSocket, or polling with a poll
+    always pending; upgrade handshakes count if each was over within T/4 (PINGs emitted meanwhile
+    wait in the queue until the handshake ends)."""
     if s.kind == 'websocket':
         return True
-    return s.autopoll and not s.upg_attempts
+    if not s.autopoll:
+        return False
+    for att in s.upg_attempts:
+        if T is None:
+            return False
+        conn = att['conn']
+        end = att.get('promoted')
+        for cand in (getattr(conn, 't_end', None), getattr(conn, 't_peer_closed', None)):
+            if cand is not None:
+                end = cand if end is None else min(end, cand)
+        if end is None or end - att['t'] > T / 4:
+            return False
+    return True
 
 
 def monitor(ex, final):
@@ -82,8 +97,10 @@ def monitor(ex, final):
         # (b) live peers are never dropped
         # (a PONG exactly at the deadline makes the next PING coincide with the I+T timeout of
         # the poll / writer / reader that waits for it: open cell, see (e) for the comparison)
-        if s.autopong and not s.vanished and cls in ('0', 'T/2', 'T-e') and \
-                reading_always(s) and not explicit and not s.manual_pongs:
+        quick_upgrades = bool(s.upg_attempts)
+        if s.autopong and not s.vanished and not explicit and (
+                (cls in ('0', 'T/2', 'T-e') and reading_always(s) and not s.manual_pongs) or
+                (cls == '0' and reading_always(s, T))):
             if disc is not None:
                 raise V(ex, 'live-peer-disconnected', '%s|pong=%s|%s' % (kind_of(s), cls, disc[1]),
                         'session %d answered every PING after %s (T=%s) but was disconnected at '
@@ -151,7 +168,9 @@ def install(ex):
 
 
 PROFILE = {
-    'weights': {'open': 3, 'poll': 0, 'app_send': 5, 'advance': 8, 'pong': 1, 'vanish': 1},
+    'weights': {'open': 3, 'poll': 0, 'app_send': 5, 'advance': 8, 'pong': 2, 'vanish': 1,
+                'probe_step': 3},
+    'wrong_step_pct': 1,
     'max_sessions': 4,
     'config': {'ping_interval': st.sampled_from([1, 2.5, 5, 25, [1, 0.5], [5, 5], [2.5, 0]]),
                'ping_timeout': st.sampled_from([1, 2.5, 5, 20]),
